@@ -29,6 +29,12 @@ pub struct Job {
     /// number of generate calls on the same generator before the recorded one (reuse)
     #[serde(default)]
     pub warm: usize,
+    /// judged with the depth-only reference machine (passed through to the trace line by the driver)
+    #[serde(default)]
+    pub deep: u8,
+    /// forced opcode choices: (0-based body step, opcode byte)
+    #[serde(default)]
+    pub force: Vec<(usize, u8)>,
 }
 
 fn yes() -> bool {
@@ -67,6 +73,9 @@ pub fn run_job(job: &Job) -> Value {
         }
         if job.rec {
             verif::start_recording(job.heap);
+            if !job.force.is_empty() {
+                verif::set_forces(job.force.iter().filter_map(|(i, b)| op_by_byte(*b).map(|o| (*i, o))).collect());
+            }
         }
         let r = if job.mode == "seed" {
             g.generate()
